@@ -89,16 +89,19 @@ RACE_PROPS = ("FinalAbsorbing", "NoRunAfterFinal", "NoLaunchAfterStop")
 def models(thorough):
     """(tag, shapes, environment switches, actions that must be covered)."""
     shapes = SS.G02_THOROUGH if thorough else SS.G02_QUICK
+    # quick: the kill / sleep models leave out the shapes with four nodes in one stage (they are in the memo model, the real
+    # runs and the thorough tier)
+    fewer = shapes if thorough else [x for x in shapes if x not in ("agg", "aggfail", "restart")]
     small = ["chain2", "stages2", "obs2", "xfail"] if thorough else ["chain2", "obs", "xfail"]
     return [
-        ("kill", shapes, dict(kill=True, starts=(0, 1, 2), all_orders=False), ["ExternalKill"]),
-        ("sleep", shapes, dict(max_sleeps=1, starts=(0, 1, 2), all_orders=thorough), ["SleepCall", "WakeUpO"]),
+        ("kill", fewer, dict(kill=True, starts=(0, 1, 2), all_orders=False), ["ExternalKill"]),
+        ("sleep", fewer, dict(max_sleeps=1, starts=(0, 1, 2), all_orders=thorough), ["SleepCall", "WakeUpO"]),
         ("memo", shapes, dict(memo=True, starts=(0, 1, 2), all_orders=thorough), []),
         ("all", small, dict(kill=True, starts=(0, 1), max_sleeps=2 if thorough else 1, memo=True, all_orders=thorough),
          ["ExternalKill", "SleepCall", "WakeUpO"]),
         # DoWhile at run time (FixLoopAfterStop = TRUE: the design a repair restores; the deviation has its own run below)
         ("dwkill", SS.G02_DW if thorough else ["dw2"], dict(kill=True, starts=(0, 1), all_orders=False), ["ExternalKill"]),
-        ("dwsleep", SS.G02_DW if thorough else ["dw1"], dict(max_sleeps=1, starts=(0, 1), all_orders=False), ["SleepCall", "WakeUpO"]),
+        ("dwsleep", SS.G02_DW if thorough else ["dw2"], dict(max_sleeps=1, starts=(0, 1), all_orders=False), ["SleepCall", "WakeUpO"]),
     ] + ([("dwall", ["dw2"], dict(kill=True, max_sleeps=1, all_orders=False), ["ExternalKill", "SleepCall", "WakeUpO"])] if thorough else [])
 
 
@@ -154,6 +157,8 @@ def feature_of(h):
 
 def real_runs_worker(tier, seed, scratch):
     """Executed in a forked child while the parent model-checks: every real run of this check, as plain records."""
+    import time
+    t0 = time.time()
     thorough = tier == "thorough"
     shapes = SS.G02_THOROUGH if thorough else SS.G02_QUICK
     rnd = random.Random(seed + 2)
@@ -161,10 +166,10 @@ def real_runs_worker(tier, seed, scratch):
     nsched = 12 if thorough else 6
     runs = SC.run_real(cases, nsched, scratch, seed + 11, env_for=lambda ci, k: ENVS[(k + ci) % len(ENVS)], catch_crash=True, light=True)
     rnd = random.Random(seed + 5)
-    cases = dw_cases(rnd, 3 if thorough else 2)
-    dw = SC.run_real(cases, 8 if thorough else 4, scratch, seed + 17, env_for=lambda ci, k: DW_ENVS[(k + ci) % len(DW_ENVS)],
+    cases = dw_cases(rnd, 4 if thorough else 3)
+    dw = SC.run_real(cases, 9 if thorough else 6, scratch, seed + 17, env_for=lambda ci, k: DW_ENVS[(k + ci) % len(DW_ENVS)],
                      catch_crash=True, light=True)
-    return runs, dw
+    return runs, dw, round(time.time() - t0, 1)
 
 
 def run(tier):
@@ -197,7 +202,7 @@ def run(tier):
         raise MachineryError("Scheduler.tla: Termination fails under fairness with the environment actions on:\n%s" % r["out"][-3000:])
     chk.add_tlc(r)
     # ---- 1a'. the named deviation of the current code (LatePostMortem): TLC must find the property violations it causes
-    for prop in ("FinalAbsorbing", "NoRunAfterFinal"):
+    for prop in (("FinalAbsorbing", "NoRunAfterFinal") if thorough else ("NoRunAfterFinal",)):
         r = SC.model_check("g02race%s" % tier, ["chain2", "restart", "sibs"], [prop], [], fixobs=FIXOBS, coverage=False,
                            kill=True, all_orders=False, fix_restart_race=False)
         if r["violated"] != prop:
@@ -240,10 +245,13 @@ def run(tier):
     chk.cov["model_cases_left_to_C02_known_class"] = left_to_c02
     chk.cov["model_terminal_states"] = sum(len(v) for v in terms.values())
     # ---- 2. real runs with the environment actions
+    import time
+    t_models = time.time() - chk.t0
     try:
-        runs, dw = real.get()
+        runs, dw, child_s = real.get()
     finally:
         pool.terminate()
+    chk.cov["wall_split_s"] = dict(model_checking=round(t_models, 1), real_runs_in_child_process=child_s)
     for h in runs + dw:
         if h.threads:
             raise MachineryError("harness leaked threads: %s" % h.threads)
@@ -322,7 +330,8 @@ def run(tier):
                   "sleep:postponed-failure-replayed", "sleep:pass-while-asleep", "memo:memoized", "memo:unpopulated-ran",
                   "memo:consumer-of-memoized-launched", "kill:while-asleep", "race:runs-with-kill-inside-postMortemCheck",
                   "dw:two-iterations-instantiated", "dw:garbage-condition-retagged-failed", "dw:loop-consumer-launched",
-                  "dw:iteration-instantiated-at-wakeup", "dw:kill-while-loop-active"):
+                  "dw:iteration-instantiated-at-wakeup", "dw:kill-while-loop-active", "dw:kill-before-finishedCheck-of-condition",
+                  "dw:stage-kept-active-by-placeholder-only"):
             if not cnt[w]:
                 raise MachineryError("no real run witnesses %s: %s" % (w, dict(cnt)))
     h = next((x for x in runs if len(x.externals) >= 2 and not x.crash), runs[0])
@@ -363,7 +372,10 @@ def dw_cases(rnd, per_conds):
 
 
 DW_ENVS = [None, dict(kill_p=0.12), dict(sleep_p=0.3, wake_p=0.25, max_sleeps=2), None, dict(kill_p=0.3),
-           dict(sleep_p=0.6, wake_p=0.15, max_sleeps=2, hold_asleep=True)]
+           dict(sleep_p=0.6, wake_p=0.15, max_sleeps=2, hold_asleep=True),
+           dict(fc_kill_p=0.4),      # the kill gets comp_lock before the finishedCheck of a component that just finished
+           # a long sleep that begins while a condition component runs: woken up when (almost) nothing else can happen
+           dict(sleep_p=0.5, wake_p=0.04, max_sleeps=2, sleep_on_cond=True)]
 
 
 def dw_runs(chk, runs, cnt, late):
@@ -433,9 +445,17 @@ def dw_witnesses(h, cnt):
                 cnt["dw:garbage-condition-retagged-failed"] += 1
             if e["ev"] == "ExternalKill" and any(prev["comps"][r]["cs"] in ("running", "postmortem") for r in loop_refs if r in prev["live"]):
                 cnt["dw:kill-while-loop-active"] += 1
+            if e["ev"] == "ExternalKill" and any(n.get("cond") and prev["comps"][h.ref(n)]["cs"] == "finished" and h.ref(n) not in prev["done"]
+                                                 for n in h.nodes):
+                cnt["dw:kill-before-finishedCheck-of-condition"] += 1
         for c in e["calls"]:
             if c[0] == "Run" and c[1] in consumers:
                 cnt["dw:loop-consumer-launched"] += 1
+        if prev is not None and e["ev"] not in ("StageEnd", "Internal") and prev["phase"] == "running" and not prev["phdone"] and \
+                all(r in prev["done"] for r in prev["live"] if h.nodes[h.refs.index(r)]["stage"] == prev["stage"]) and \
+                any(n.get("loop") and n["stage"] == prev["stage"] for n in h.nodes):
+            # every node of the stage was recorded done, yet run() did not end the stage: a placeholder was still running
+            cnt["dw:stage-kept-active-by-placeholder-only"] += 1
         prev = st
 
 
